@@ -197,4 +197,8 @@ def run_history(versions: list[dict[str, str]], flags: list[str], targets: list[
     finally:
         os.chdir(old_cwd)
         shutil.rmtree(d, ignore_errors=True)
+        server = None
+        inproc.cleanup()
+        import gc
+        gc.collect()
     return {"steps": steps, "final": final}
